@@ -150,21 +150,43 @@ def run(prog: Program, chk: Check):
     gens = [("python", "generate_struct"), ("python", "generate_msg_def"), ("c99", "generate_struct"), ("javascript", "generate_obj"), ("matlab", "generate_struct")]
     funcs = [(b, prog.func(BACKENDS[b][0], f"{BACKENDS[b][1]}.{fn}")) for b, fn in gens] + [("parser", prog.func(PAR, "Parser.get_ctype_cls"))]
     for b, f in funcs:
+        from ..util import iterations
+        from .. import callgraph as _cgm
+
         dparam = [p for p in f.params() if p != "self"][0]
-        loops = [lp for lp in walk_local(f.node) if isinstance(lp, ast.For) and (norm(lp.iter) == f"{dparam}.fields" or norm(lp.iter).startswith(f"enumerate({dparam}.fields"))]
+        loops = [it_ for it_ in iterations(f.node) if (norm(it_.iter) == f"{dparam}.fields" or norm(it_.iter).startswith(f"enumerate({dparam}.fields"))]
         if len(loops) != 1:
-            F.bad(fkey(f, "field-loop"), where(f), f"{f.qual}: expected exactly one loop over {dparam}.fields, found {len(loops)} (sorted / sliced / filtered iteration?)")
+            F.bad(fkey(f, "field-loop"), where(f), f"{f.qual}: expected exactly one walk over {dparam}.fields, found {len(loops)} (sorted / sliced / filtered iteration?)")
             continue
-        lp = loops[0]
-        fv = lp.target.elts[-1].id if isinstance(lp.target, ast.Tuple) else lp.target.id
-        skips = [s for s in walk_local(lp) if isinstance(s, (ast.Continue, ast.Break))]
-        reads = {n.attr for n in walk_local(lp) if isinstance(n, ast.Attribute) and path_of(n.value) == fv}
+        itn = loops[0]
+        lp = itn.node
+        fv = itn.target.elts[-1].id if isinstance(itn.target, ast.Tuple) else itn.target.id
+        skips = [s for s in walk_local(lp) if isinstance(s, (ast.Continue, ast.Break))] if not itn.is_comp else list(itn.conditions)
+        scope = [lp] if not itn.is_comp else list(itn.body)
+        reads = {n.attr for sc_ in scope for n in walk_local(sc_) if isinstance(n, ast.Attribute) and path_of(n.value) == fv}
+        # attributes read from the field inside helpers it is handed to (new helpers of the same class, transitively)
+        seen_h, todo_h = set(), [(f, sc_, fv) for sc_ in scope]
+        while todo_h:
+            fcur, node_, var_ = todo_h.pop()
+            for c_ in ([x for x in walk_local(node_) if isinstance(x, ast.Call)]):
+                if isinstance(c_.func, ast.Attribute) and path_of(c_.func.value) == "self" and fcur.cls is not None and c_.func.attr in fcur.cls.methods:
+                    callee = fcur.cls.methods[c_.func.attr]
+                    if not prog.is_expanded_helper(callee) or (callee.key, var_) in seen_h:
+                        continue
+                    b_ = _cgm.bind_args(callee, c_, bound_method=True)
+                    for p_, a_ in b_.items():
+                        if path_of(a_) == var_:
+                            seen_h.add((callee.key, var_))
+                            reads |= {n.attr for n in walk_local(callee.node) if isinstance(n, ast.Attribute) and path_of(n.value) == p_}
+                            todo_h.append((callee, callee.node, p_))
         need = {"name", "type_name", "length"} if b != "parser" else {"type_obj", "length"}
         F.decide(not skips and need <= reads, fkey(f, "field-loop"), where(f, lp), f"walks {dparam}.fields in order using {sorted(need)}",
                  f"{f.qual}: field loop " + ("skips fields (continue/break); " if skips else "") + (f"does not read {sorted(need - reads)}" if need - reads else ""))
         # the emitted member mentions the field's own name
         if b != "parser":
-            emit_ok = any(isinstance(n, ast.FormattedValue) and norm(n.value) == f"{fv}.name" for n in walk_local(lp))
+            emit_ok = any(isinstance(n, ast.FormattedValue) and norm(n.value) == f"{fv}.name" for sc_ in scope for n in walk_local(sc_)) or \
+                any(isinstance(n, ast.FormattedValue) and isinstance(n.value, ast.Attribute) and n.value.attr == "name" and (k_, path_of(n.value.value)) in {(k2, p2) for (k2, _v2) in seen_h for p2 in [path_of(n.value.value)]}
+                    for (k_, _v) in seen_h for fn_ in [next((m_ for m_ in f.cls.methods.values() if m_.key == k_), None)] if fn_ is not None for n in walk_local(fn_.node))
             F.decide(emit_ok, fkey(f, "emits-field-name"), where(f, lp), "member is emitted under field.name", f"{f.qual} does not emit members under field.name")
 
     # emitted extents and values are the parser's *evaluated* numbers: the unevaluated yaml text means something else in each target
